@@ -483,26 +483,33 @@ impl Drop for TD {
     }
 }
 
-/// A value with no drop glue whose `Clone` is observable (counted, fresh serial number).
-pub struct ND {
+/// A value with no drop glue whose `Clone` is observable (counted, fresh serial number); `N` words of padding
+/// choose its size class (16 bytes, exactly 64, just above 64, large).
+pub struct ND<const N: usize = 0> {
     pub serial: u64,
     pub tag: u64,
+    pub pad: [u64; N],
 }
 static ND_SERIAL: AtomicU64 = AtomicU64::new(1);
-impl ND {
-    pub fn make(tag: u64) -> ND {
+impl<const N: usize> ND<N> {
+    pub fn make(tag: u64) -> Self {
         ND {
             serial: ND_SERIAL.fetch_add(1, Relaxed),
             tag,
+            pad: [tag ^ 0x5A5A; N],
         }
     }
+    pub fn pad_ok(&self) -> bool {
+        self.pad.iter().all(|w| *w == self.pad.first().copied().unwrap_or(0))
+    }
 }
-impl Clone for ND {
+impl<const N: usize> Clone for ND<N> {
     fn clone(&self) -> Self {
         clone_tick();
         ND {
             serial: ND_SERIAL.fetch_add(1, Relaxed),
             tag: self.tag,
+            pad: self.pad,
         }
     }
 }
